@@ -62,13 +62,16 @@ def showGwOut : Option (List (List (Nat × Int))) → String
 
 def unesc (s : String) : String := s.replace "%20" " "
 
+/-- `0` = a pod without labels | `k=v+k=v`: the name and the value may be EMPTY (`blue=` = the label
+`blue` present with the empty value, `=v` = the empty name, `=` both).  A pod's labels are a map: the
+harness assigns the pairs in order (`pod.Labels[k] = v`), a repeated name keeps the last value
+(`labelsOfPairs`). -/
 def parseLabels (s : String) : Option (List (String × String)) :=
   if s = "0" then some [] else do
     let kvs ← (s.splitOn "+").mapM fun kv => match kv.splitOn "=" with
       | [k, v] => some (k, v)
       | _ => none
-    -- a pod's labels are a map: a key occurs once
-    if (kvs.map (·.1)).eraseDups.length = kvs.length then some kvs else none
+    some (labelsOfPairs kvs)
 
 /-- `<r|d>:<pod>[@<a>]`: the address id defaults to the position (1-based) -/
 def parseBgEp (pos : Nat) (s : String) : Option BgListed :=
@@ -102,6 +105,13 @@ def parseBgIn (mode initial ann eps : String) : Option BgIn := do
          initial := if initial = "-" then 1 else (parseGoInt (unesc initial)).getD 0,
          ann := ann, eps := eps }
 
+/-- cross-check of the structural `goSplit` (what the model's parser and the theorems use) against the
+library's `String.splitOn` on the annotation of the case and on each of its items -/
+def splitAgrees (ann : Option String) : Bool :=
+  match ann with
+  | none => true
+  | some a => goSplitStr ',' a == a.splitOn "," && (a.splitOn ",").all fun it => goSplitStr '=' it == it.splitOn "="
+
 def showInts (l : List Int) : String := if l.isEmpty then "-" else ",".intercalate (l.map toString)
 
 /-- `rebalance <initial> <W:L,...>` with impl output `<w,...>` (ints);
@@ -134,7 +144,7 @@ def handle (args : List String) (impl : String) : Verdict :=
     match parseBgIn mode ini ann eps, parseList String.toInt? impl with
     | some i, some obs =>
       let m := bgRun i
-      { model := showInts m, agree := m = obs, oracle := bgOracle i obs,
+      { model := showInts m, agree := m = obs ∧ splitAgrees i.ann, oracle := bgOracle i obs,
         trivial := (bgEntries i.ann).isNone || i.eps.isEmpty }
     | _, _ => if impl = "PANIC" then { model := "-", agree := false, oracle := some "panic-bg" } else bad "parse"
   | _ => bad "C16"
